@@ -60,7 +60,9 @@ def part_protocol(ctx):
     from .c02 import all_adapters, call
     names = ["KDEVectorizer", "DistributionVectorizer", "HistogramVectorizer", "InformationWeightTransformer", "RowDenoisingTransformer",
              "CountFeatureCompressionTransformer"] + [n for n in all_adapters() if all_adapters()[n].heavy]
-    hs = [[call("fit", [1, 2, 3]), call("transform", [4, 5]), call("transform", [6, 4, 1]), call("transform", [5])],
+    hs = [[call("fit", [1, 2, 3]), call("transform", [4, 5]), call("transform", [6, 4, 1]), call("transform", [5]),
+           # batches that do not fill a whole number of internal blocks (memory_size="1k": 4 rows per block)
+           call("transform", [4, 5, 6, 4, 1, 5, 6]), call("transform", [1, 4, 5, 6, 2])],
           [call("fit", [4, 5, 6]), call("transform", [1]), call("transform", [2, 3, 1, 2])],
           [call("fit_transform", [1, 3, 5]), call("transform", [2, 4, 6, 2])]]
     jobs = []
